@@ -49,12 +49,13 @@ def class_chars(items, ascii_only=False):
 
 
 class Gen(object):
-    def __init__(self, pattern, seed=0, ascii_only=False, maxrep=3, ws_mode='all'):
+    def __init__(self, pattern, seed=0, ascii_only=False, maxrep=3, ws_mode='all', long_repeats=()):
         self.text = pattern.pattern if hasattr(pattern, 'pattern') else pattern
         self.tree = sp.parse(self.text)
         self.rnd = random.Random(seed)
         self.ascii_only = ascii_only
         self.maxrep = maxrep
+        self.long_repeats = tuple(long_repeats)     # extra counts tried for UNBOUNDED repeats (\d+, \s*): the language has no length bound
         self.counters = {}
         self.ws_mode = ws_mode
         self.flags = getattr(pattern, 'flags', 0) if hasattr(pattern, 'pattern') else 0
@@ -119,9 +120,12 @@ class Gen(object):
                 pass            # look-around: nothing is consumed (the sample may then simply not match)
             elif op in (sc.MAX_REPEAT, sc.MIN_REPEAT) or op is getattr(sc, 'POSSESSIVE_REPEAT', None):
                 lo, hi, sub = av
+                unbounded = hi is sc.MAXREPEAT
                 if hi is sc.MAXREPEAT or hi > lo + self.maxrep:
                     hi = lo + self.maxrep
                 opts = list(range(lo, hi + 1))
+                if unbounded and self.long_repeats:
+                    opts += [lo + x for x in self.long_repeats]
                 n = opts[self._cycle(nid, len(opts))]
                 for r in range(n):
                     self._gen(sub, out, nid + (min(r, 2),))
